@@ -361,6 +361,25 @@ def check_direct(ctx, batch: Batch, filt: str, x: bytes, choice: Any, from_repla
                         best = cand
             small_x, small_choice = best[0], (colors, columns, bpc, list(best[1]))
             tags["first_ft"] = small_choice[3][0] if small_choice[3] else None
+        elif not from_replay and filt == "rl":
+            segs, eod = choice
+
+            def still_segs(sub):
+                return impl_call(D["rl"], E.rl_enc(sub, eod)) != "B " + hx(E.rl_flat(sub))
+            try:
+                segs2 = C.ddmin(list(segs), still_segs, max_tests=200)
+                if still_segs(segs2):
+                    small_x, small_choice = E.rl_flat(segs2), (segs2, eod)
+            except Exception:  # noqa: BLE001
+                pass
+        elif not from_replay and filt == "tiff":
+            colors, columns = choice
+            nb = colors * columns
+            for r in range(len(x) // nb):
+                cand = x[nb * r:nb * (r + 1)]
+                if impl_call(D["tiff"], colors, columns, 8, E.tiff_enc(colors, columns, cand)) != "B " + hx(cand):
+                    small_x = cand
+                    break
         e2, _, _, a2 = enc_and_lines(small_x, small_choice)
         got2 = impl_call(D[filt], *a2)
         ctx.fail(C.Failure(f"{filt}: decode(encode(x)) != x on the implementation",
@@ -838,7 +857,29 @@ def check_chain(ctx, batch: Batch, stages: List[Stage], x: bytes, data: bytes, l
         exp, gotv = "B " + hx(x)[:400], got_s[:400]
         tags["stage"] = "decode"
     if fail_what:
-        ctx.fail(C.Failure(fail_what, {"kind": "chain", "stages": [s.to_json() for s in stages], "payload": hx(x),
+        small = x
+        if not from_replay and not any(s.pred for s in stages) and len(x) > 1:
+            # shrink the payload (the encoder choices are positional, so they stay meaningful)
+            def still(sub: bytes) -> bool:
+                try:
+                    d2 = encode_chain(stages, sub)
+                    lay2 = dict(lay)
+                    if lay2["eol"] == "\r" and d2[:1] == b"\n":
+                        return False
+                    r2, g2, _ = read_stream(build_stream_file(stages, d2, lay2))
+                    return r2 != d2 or g2 != sub
+                except Exception:  # noqa: BLE001
+                    return True
+            small = shrink_bytes(x, still)
+            if small != x:
+                try:
+                    d2 = encode_chain(stages, small)
+                    r2, g2, _ = read_stream(build_stream_file(stages, d2, lay))
+                    exp = "B " + (hx(d2) if tags["stage"] == "delimit" else hx(small))[:400]
+                    gotv = "B " + (hx(r2) if tags["stage"] == "delimit" else hx(g2))[:400]
+                except Exception as e:  # noqa: BLE001
+                    exp, gotv = "B " + hx(small)[:400], "E " + type(e).__name__
+        ctx.fail(C.Failure(fail_what, {"kind": "chain", "stages": [s.to_json() for s in stages], "payload": hx(small),
                                        "layout": lay}, exp, gotv, tags))
     # tie: the stream-delimitation model on the whole file and the pipeline model on the raw data
     spos = pdf.find(b"stream" + lay["eol"].encode() + data)
